@@ -81,8 +81,8 @@ Lemma last_row_None rows f p k : last_row rows f p k = None <-> ~ In k (group_ke
 Proof.
   unfold last_row, group_keys. split.
   - intros H Hin. apply in_map_iff in Hin. destruct Hin as [r [<- Hr]]. apply filter_In in Hr.
-    destruct Hr as [Hr Hg]. apply (find_none _ _ H r); [now apply in_rev in Hr|].
-    unfold names. now rewrite Hg, str_eqb_refl.
+    destruct Hr as [Hr Hg]. pose proof (find_none _ _ H r (proj1 (in_rev _ _) Hr)) as Hn.
+    unfold names in Hn. rewrite Hg, str_eqb_refl in Hn. discriminate.
   - intros H. destruct (find (names f p k) (rev rows)) as [r|] eqn:E; [|reflexivity].
     exfalso. apply find_some in E. destruct E as [Hin Hn]. apply H.
     unfold names in Hn. apply andb_true_iff in Hn. destruct Hn as [Hg Hk].
@@ -166,7 +166,7 @@ Lemma key_deleted_lastval rows f p k :
 Proof.
   intros Hd Hin. unfold key_deleted, lastval in *.
   destruct (last_row rows f p k) as [r|] eqn:E.
-  - destruct (verdict_of r) as [q w|]; [|discriminate]. eauto 6.
+  - destruct (verdict_of r) as [q w|] eqn:Ev; [|discriminate]. exists r, q, w. auto.
   - exfalso. now apply last_row_None in E.
 Qed.
 
@@ -190,10 +190,11 @@ Proof.
     destruct (mgroup (mp_map (m_of_rows rows)) f p) as [vm|] eqn:Eg.
     + assert (Hne : vm <> []).
       { intros ->. destruct (group_keys rows f p) as [|k0 ks] eqn:Ek.
-        - apply I1b in Ek. congruence.
-        - assert (Hin : In k0 (group_keys rows f p)) by (rewrite Ek; now left).
-          specialize (Hlive k0 Hin). apply negb_true_iff in Hlive.
-          destruct (key_deleted_lastval _ _ _ _ Hlive Hin) as [r [q [w [_ [_ E]]]]].
+        - specialize (I1b eq_refl). discriminate.
+        - assert (Hin : In k0 (k0 :: ks)) by now left.
+          pose proof (Hlive k0 Hin) as Hl0. apply negb_true_iff in Hl0.
+          assert (Hin' : In k0 (group_keys rows f p)) by (rewrite Ek; now left).
+          destruct (key_deleted_lastval _ _ _ _ Hl0 Hin') as [r [q [w [_ [_ E]]]]].
           rewrite <- I2 in E. discriminate. }
       destruct vm as [|e vm]; [congruence|]. rewrite !I2. unfold level_says.
       unfold lastval at 1. destruct (last_row rows f p v) as [r|] eqn:E1.
